@@ -257,9 +257,8 @@ def exline_literal(lit: AST, unique_vars: UniqueVariables) -> tuple[AST, list[AS
     return new_lit, ret
 
 
-def exline_minimize_terms(stm: AST) -> AST:
+def exline_minimize_terms(stm: AST, uv: UniqueVariables) -> AST:
     """move complex arithmetic from the minimize objective and terms to the body"""
-    uv = UniqueVariables(stm)
     new_term, conditions = exline_term(stm.weight, uv)
     stm = stm.update(weight=new_term, body=list(stm.body) + conditions)
     new_term, conditions = exline_term(stm.priority, uv)
@@ -281,7 +280,7 @@ def exline_arithmetic_rule(stm: AST) -> AST:
         new_head, body = exline_literal(stm.head, unique_vars)
         stm = stm.update(head=new_head, body=list(stm.body) + body)
     if stm.ast_type == ASTType.Minimize:
-        stm = exline_minimize_terms(stm)
+        stm = exline_minimize_terms(stm, unique_vars)
     if stm.ast_type in (ASTType.Rule, ASTType.Minimize):
         new_body: list[AST] = []
         for blit in stm.body:
